@@ -78,8 +78,10 @@ theorem dispatchOneX_task_running (sp : Spec) (r : Bool) (w : World) (c : Cmd) (
   | true => exact ⟨hw, rfl⟩
   | false =>
     simp only [Bool.false_eq_true, if_false]
-    rw [(dispatchTask_frame sp w c).1, (dispatchTask_frame sp w c).2]
-    exact ⟨hw, rfl⟩
+    split
+    · exact ⟨hw, rfl⟩
+    · rw [(dispatchTask_frame sp w c).1, (dispatchTask_frame sp w c).2]
+      exact ⟨hw, rfl⟩
 
 theorem foldl_tasks_running (sp : Spec) (r : Bool) (cs : List Cmd) :
     ∀ (w : World), w.wf = .RUNNING → (∀ c ∈ cs, cmdKind c.target = .task) →
@@ -94,21 +96,103 @@ theorem foldl_tasks_running (sp : Spec) (r : Bool) (cs : List Cmd) :
 
 /-! ### `_rearrange_commands` -/
 
-theorem rearrangeAux_tasks_pause (pre : List Cmd) (p : Cmd) (rest : List Cmd)
-    (hpre : ∀ c ∈ pre, cmdKind c.target = .task) (hp : cmdKind p.target = .pause) :
-    rearrangeAux (pre ++ p :: rest) = pre ++ p :: rest := by
+theorem insertBin_perm (lt : Cmd → Cmd → Bool) (sorted : List Cmd) (pivot : Cmd) :
+    (insertBin lt sorted pivot).length = sorted.length + 1 ∧
+    ∀ x, x ∈ insertBin lt sorted pivot ↔ x = pivot ∨ x ∈ sorted := by
+  unfold insertBin
+  simp only
+  generalize insertBin.go lt sorted pivot (sorted.length + 1) 0 sorted.length = k
+  constructor
+  · simp only [List.length_append, List.length_cons, List.length_take, List.length_drop]
+    omega
+  · intro x
+    have h := List.take_append_drop k sorted
+    constructor
+    · intro hx
+      rcases List.mem_append.mp hx with h1 | h1
+      · exact Or.inr (List.mem_of_mem_take h1)
+      · rcases List.mem_cons.mp h1 with h2 | h2
+        · exact Or.inl h2
+        · exact Or.inr (List.mem_of_mem_drop h2)
+    · intro hx
+      rcases hx with rfl | hx
+      · exact List.mem_append_right _ List.mem_cons_self
+      · rw [← h] at hx
+        rcases List.mem_append.mp hx with h1 | h1
+        · exact List.mem_append_left _ h1
+        · exact List.mem_append_right _ (List.mem_cons_of_mem _ h1)
+
+theorem foldl_insertBin_perm (lt : Cmd → Cmd → Bool) (l : List Cmd) :
+    ∀ (init : List Cmd), (l.foldl (insertBin lt) init).length = init.length + l.length ∧
+      ∀ x, x ∈ l.foldl (insertBin lt) init ↔ x ∈ init ∨ x ∈ l := by
+  induction l with
+  | nil => intro init; simp
+  | cons a l ih =>
+    intro init
+    obtain ⟨h1, h2⟩ := ih (insertBin lt init a)
+    obtain ⟨h3, h4⟩ := insertBin_perm lt init a
+    refine ⟨by simp only [List.foldl_cons, h1, h3, List.length_cons]; omega, ?_⟩
+    intro x
+    simp only [List.foldl_cons, h2, h4, List.mem_cons]
+    constructor
+    · rintro ((rfl | h) | h)
+      · exact Or.inr (Or.inl rfl)
+      · exact Or.inl h
+      · exact Or.inr (Or.inr h)
+    · rintro (h | rfl | h)
+      · exact Or.inl (Or.inr h)
+      · exact Or.inl (Or.inl rfl)
+      · exact Or.inr h
+
+/-- the sort is a rearrangement: same length, same elements -/
+theorem pySort_perm (lt : Cmd → Cmd → Bool) (l : List Cmd) :
+    (pySort lt l).length = l.length ∧ ∀ x, x ∈ pySort lt l ↔ x ∈ l := by
+  unfold pySort
+  split
+  · simp
+  · simp
+  · rename_i x0 x1 rest
+    simp only
+    generalize runLen lt (lt x1 x0) x1 rest 2 = n
+    generalize hl : x0 :: x1 :: rest = l'
+    obtain ⟨h1, h2⟩ := foldl_insertBin_perm lt (l'.drop n) (if lt x1 x0 = true then (l'.take n).reverse else l'.take n)
+    have hlen : (if lt x1 x0 = true then (l'.take n).reverse else l'.take n).length = (l'.take n).length := by
+      split <;> simp
+    have hmem : ∀ x, x ∈ (if lt x1 x0 = true then (l'.take n).reverse else l'.take n) ↔ x ∈ l'.take n := by
+      intro x; split <;> simp
+    constructor
+    · rw [h1, hlen]
+      simp only [List.length_take, List.length_drop]
+      omega
+    · intro x
+      rw [h2, hmem]
+      have := List.take_append_drop n l'
+      constructor
+      · rintro (h | h)
+        · exact List.mem_of_mem_take h
+        · exact List.mem_of_mem_drop h
+      · intro h
+        rw [← this] at h
+        exact List.mem_append.mp h
+
+theorem splitState_tasks_state (pre : List Cmd) (p : Cmd) (rest : List Cmd)
+    (hpre : ∀ c ∈ pre, cmdKind c.target = .task) (hp : cmdKind p.target ≠ .task ∧ cmdKind p.target ≠ .noop) :
+    splitState (pre ++ p :: rest) = (pre, some p, rest) := by
   induction pre with
-  | nil => simp [rearrangeAux, hp]
+  | nil =>
+    simp only [List.nil_append, splitState]
+    cases h : cmdKind p.target <;> simp_all
   | cons c cs ih =>
     have hc := hpre c List.mem_cons_self
-    simp only [List.cons_append, rearrangeAux, hc]
+    simp only [List.cons_append, splitState, hc]
     rw [ih (fun c' hc' => hpre c' (List.mem_cons_of_mem _ hc'))]
 
-theorem rearrangeAux_tasks (cs : List Cmd) (h : ∀ c ∈ cs, cmdKind c.target = .task) : rearrangeAux cs = cs := by
+theorem splitState_tasks (cs : List Cmd) (h : ∀ c ∈ cs, cmdKind c.target = .task) :
+    splitState cs = (cs, none, []) := by
   induction cs with
   | nil => rfl
   | cons c cs ih =>
-    simp only [rearrangeAux, h c List.mem_cons_self]
+    simp only [splitState, h c List.mem_cons_self]
     rw [ih (fun c' hc' => h c' (List.mem_cons_of_mem _ hc'))]
 
 theorem filter_noop_tasks (cs : List Cmd) (h : ∀ c ∈ cs, cmdKind c.target = .task) :
@@ -116,5 +200,24 @@ theorem filter_noop_tasks (cs : List Cmd) (h : ∀ c ∈ cs, cmdKind c.target = 
   apply List.filter_eq_self.mpr
   intro c hc
   rw [h c hc]; decide
+
+/-- a list of task commands is only sorted -/
+theorem rearrange_tasks (waiting : Cmd → Bool) (cs : List Cmd) (h : ∀ c ∈ cs, cmdKind c.target = .task) :
+    rearrange waiting cs = pySort (cmdLT waiting) cs := by
+  unfold rearrange
+  simp only [filter_noop_tasks cs h, splitState_tasks cs h]
+
+/-- task commands, then `pause`, then a tail: the task commands sorted, `pause`, the tail without its noops -/
+theorem rearrange_tasks_pause (waiting : Cmd → Bool) (pre : List Cmd) (p : Cmd) (rest : List Cmd)
+    (hpre : ∀ c ∈ pre, cmdKind c.target = .task) (hp : cmdKind p.target = .pause) :
+    rearrange waiting (pre ++ p :: rest) =
+      pySort (cmdLT waiting) pre ++ p :: rest.filter (fun c => cmdKind c.target != .noop) := by
+  unfold rearrange
+  have hf : (pre ++ p :: rest).filter (fun c => cmdKind c.target != .noop) =
+      pre ++ p :: rest.filter (fun c => cmdKind c.target != .noop) := by
+    rw [List.filter_append, filter_noop_tasks pre hpre, List.filter_cons]
+    simp [hp]
+  simp only [hf, splitState_tasks_state pre p _ hpre (by rw [hp]; exact ⟨by decide, by decide⟩), hp]
+  rfl
 
 end Mistral.Engine
